@@ -28,9 +28,11 @@ Definition mat := list vec.
 
 (* Switches: set one to `true` when the corresponding repair is in /repo (proposed_fix_C16_F*.diff).  The Impl then
    models the repaired mechanism, the guard of that class becomes vacuous, the generator of harness/c16.py (which
-   reads these three lines) starts producing the class, and the `_refuted` lemma of the class becomes vacuous. *)
+   reads these lines) starts producing the class, and the `_refuted` lemma of the class becomes vacuous. *)
+Definition fixed_F1 : bool := false.  (* Connectivity edges are inputs of their own (keyed by (source node, edge index)) *)
 Definition fixed_F2 : bool := true.   (* post-synaptic variable registered under its own name *)
 Definition fixed_F3 : bool := true.   (* scalar weight + coupling template -> full weight matrix *)
+Definition fixed_F6 : bool := false.  (* one input name per variable inside an in-edge operator *)
 Definition fixed_F8 : bool := true.   (* one ring buffer per delayed Connectivity *)
 
 Definition mkq (num : Z) (den : positive) : Qc := Q2Qc (num # den).
@@ -191,7 +193,7 @@ Definition same_conn (c1 c2 : conn) : bool :=
   (csrc c1 =? csrc c2)%nat && (csv c1 =? csv c2)%nat && (ctgt c1 =? ctgt c2)%nat && (ctv c1 =? ctv c2)%nat &&
   (cpv c1 =? cpv c2)%nat && (cdelay c1 =? cdelay c2)%nat.
 Definition alias (N : popnet) : bool :=
-  existsb (fun c2 => is_mat (cw c2) && uses_post (ccpl c2) && (2 <=? n_into N (ctgt c2) (ctv c2))%nat &&
+  negb fixed_F6 && existsb (fun c2 => is_mat (cw c2) && uses_post (ccpl c2) && (2 <=? n_into N (ctgt c2) (ctv c2))%nat &&
                      existsb (fun c1 => into (ctgt c2) (ctv c2) c1 && (csrc c1 =? ctgt c2)%nat && (csv c1 =? cpv c2)%nat
                                         && negb (fixed_F2 && same_conn c1 c2))
                              (conns N)) (conns N).
@@ -200,7 +202,7 @@ Definition has_delay (c : conn) : bool := negb (eff_delay (cdelay c) =? 0)%nat.
 Definition delay_1x1 (c : conn) : bool :=
   has_delay c && match cw c with WMat W => (length W =? 1)%nat && (ncols W =? 1)%nat | WScal _ => false end.
 Definition loud (N : popnet) : bool :=
-  dup_sources (conns N) || alias N ||
+  (negb fixed_F1 && dup_sources (conns N)) || alias N ||
   existsb (fun c => cpl_bad_shape c || delay_1x1 c ||
                     (collides N c && negb (size_of N (csrc c) =? size_of N (ctgt c))%nat)) (conns N).
 
@@ -328,7 +330,7 @@ Definition wf_units (N : popnet) (units : list pstate) : bool :=
           (combine units (pops N)).
 
 (* the classes on which the population circuit is NOT the explicit network (each one is refuted in C16.v) *)
-Definition g_distinct_sources (N : popnet) : bool := negb (dup_sources (conns N)).
+Definition g_distinct_sources (N : popnet) : bool := fixed_F1 || negb (dup_sources (conns N)).
 Definition g_coupling_shape (N : popnet) : bool := negb (existsb cpl_bad_shape (conns N)).
 Definition g_post_name (N : popnet) : bool := fixed_F2 || negb (existsb (collides N) (conns N)).
 Definition g_scalar_plain (N : popnet) : bool :=
